@@ -32,10 +32,6 @@ impl<'a> AsRef<[u8]> for Cow<'a, [u8]> {
 }
 // for every byte string there is a Cow holding it (used only to give `HeaderField::from` a functional spec)
 pub uninterp spec fn spec_cow(b: Seq<u8>) -> Cow<'static, [u8]>;
-#[verifier::external_body]
-pub broadcast proof fn axiom_spec_cow(b: Seq<u8>)
-    ensures (#[trigger] spec_cow(b)).bytes() == b
-{}
 
 // std::str::from_utf8 (no vstd spec): Ok exactly on well-formed UTF-8, and then the str is those bytes
 pub uninterp spec fn spec_is_utf8(s: Seq<u8>) -> bool;
@@ -85,10 +81,6 @@ pub open spec fn spec_is_status(s: Seq<u8>) -> bool {
     s.len() == 3 && 0x31 <= s[0] && s[0] <= 0x39 && 0x30 <= s[1] && s[1] <= 0x39 && 0x30 <= s[2] && s[2] <= 0x39
 }
 pub uninterp spec fn spec_is_method(s: Seq<u8>) -> bool;      // non-empty, method token bytes (method.rs METHOD_CHARS)
-#[verifier::external_body]
-pub broadcast proof fn axiom_method_nonempty(s: Seq<u8>)
-    ensures #[trigger] spec_is_method(s) ==> s.len() > 0
-{}
 
 // ===== header::{HeaderName, HeaderValue} =====
 #[verifier::external_body] pub struct InvalidHeaderName { x: u8 }
@@ -113,10 +105,6 @@ impl HeaderName {
     pub fn as_str(&self) -> (r: &str) ensures r.spec_bytes() == self.bytes() { unimplemented!() }
 }
 // type invariant of HeaderName (every constructor validates / lower-cases)
-#[verifier::external_body]
-pub broadcast proof fn axiom_header_name_inv(n: HeaderName)
-    ensures spec_is_http_name(#[trigger] n.bytes())
-{}
 impl HeaderValue {
     pub uninterp spec fn bytes(&self) -> Seq<u8>;
     #[verifier::external_body]
@@ -158,10 +146,6 @@ impl Method {
     pub fn as_str(&self) -> (r: &str) ensures r.spec_bytes() == self.bytes() { unimplemented!() }
 }
 // a Method always holds a valid method token
-#[verifier::external_body]
-pub broadcast proof fn axiom_method_inv(m: Method)
-    ensures spec_is_method(#[trigger] m.bytes())
-{}
 impl PartialEq for Method {
     #[verifier::external_body]
     fn eq(&self, other: &Method) -> (r: bool) ensures r == (self.bytes() == other.bytes()) { unimplemented!() }
@@ -180,10 +164,6 @@ impl StatusCode {
     #[verifier::external_body]
     pub fn as_str(&self) -> (r: &str) ensures r.spec_bytes() == self.bytes() { unimplemented!() }
 }
-#[verifier::external_body]
-pub broadcast proof fn axiom_status_inv(s: StatusCode)
-    ensures spec_is_status(#[trigger] s.bytes())
-{}
 
 // ===== uri::{Scheme, Authority, PathAndQuery, Parts, Uri, Builder} =====
 #[verifier::external_body] pub struct InvalidUri { x: u8 }
@@ -222,30 +202,6 @@ impl PathAndQuery {
 // parsed values keep their text (Scheme, Authority: stored verbatim; PathAndQuery: verbatim up to a '#', so only
 // "re-parsing the stored text gives the same value" is assumed for it); an Authority is never empty
 // (`Authority::parse_non_empty`, ErrorKind::Empty); "/" is a valid path
-#[verifier::external_body]
-pub broadcast proof fn axiom_scheme_from(s: Seq<u8>)
-    ensures (#[trigger] spec_scheme_from(s)) is Some ==> spec_scheme_from(s)->Some_0.bytes() == s
-{}
-#[verifier::external_body]
-pub broadcast proof fn axiom_authority_from(s: Seq<u8>)
-    ensures (#[trigger] spec_authority_from(s)) is Some ==> s.len() > 0 && spec_authority_from(s)->Some_0.bytes() == s
-{}
-#[verifier::external_body]
-pub broadcast proof fn axiom_authority_inv(a: Authority)
-    ensures spec_authority_from(#[trigger] a.bytes()) == Some(a)
-{}
-#[verifier::external_body]
-pub broadcast proof fn axiom_scheme_inv(a: Scheme)
-    ensures spec_scheme_from(#[trigger] a.bytes()) == Some(a)
-{}
-#[verifier::external_body]
-pub broadcast proof fn axiom_path_inv(a: PathAndQuery)
-    ensures spec_path_from(#[trigger] a.bytes()) == Some(a)
-{}
-#[verifier::external_body]
-pub broadcast proof fn axiom_path_slash()
-    ensures (#[trigger] spec_path_from("/".spec_bytes())) is Some
-{}
 impl FromStr for Scheme {
     type Err = InvalidUri;
     open spec fn spec_from(s: Seq<u8>) -> Option<Self> { spec_scheme_from(s) }
@@ -432,4 +388,57 @@ impl HeaderMap {
     pub fn into_iter(self) -> (r: header::IntoIter<HeaderValue>)
         ensures spec_carry(None, r.rest()) == self.entries(),
     { unimplemented!() }
+}
+
+// ===== all assumed facts about values of the shim types, as one broadcast group (in a submodule: `broadcast use`
+// in the defining module is a definition cycle for Verus) =====
+pub mod http_ax {
+    use super::*;
+    #[verifier::external_body]
+    pub broadcast proof fn axiom_spec_cow(b: Seq<u8>)
+        ensures (#[trigger] spec_cow(b)).bytes() == b
+    {}
+    #[verifier::external_body]
+    pub broadcast proof fn axiom_method_nonempty(s: Seq<u8>)
+        ensures #[trigger] spec_is_method(s) ==> s.len() > 0
+    {}
+    #[verifier::external_body]
+    pub broadcast proof fn axiom_header_name_inv(n: HeaderName)
+        ensures spec_is_http_name(#[trigger] n.bytes())
+    {}
+    #[verifier::external_body]
+    pub broadcast proof fn axiom_method_inv(m: Method)
+        ensures spec_is_method(#[trigger] m.bytes())
+    {}
+    #[verifier::external_body]
+    pub broadcast proof fn axiom_status_inv(s: StatusCode)
+        ensures spec_is_status(#[trigger] s.bytes())
+    {}
+    #[verifier::external_body]
+    pub broadcast proof fn axiom_scheme_from(s: Seq<u8>)
+        ensures (#[trigger] spec_scheme_from(s)) is Some ==> spec_scheme_from(s)->Some_0.bytes() == s
+    {}
+    #[verifier::external_body]
+    pub broadcast proof fn axiom_authority_from(s: Seq<u8>)
+        ensures (#[trigger] spec_authority_from(s)) is Some ==> s.len() > 0 && spec_authority_from(s)->Some_0.bytes() == s
+    {}
+    #[verifier::external_body]
+    pub broadcast proof fn axiom_authority_inv(a: Authority)
+        ensures spec_authority_from(#[trigger] a.bytes()) == Some(a)
+    {}
+    #[verifier::external_body]
+    pub broadcast proof fn axiom_scheme_inv(a: Scheme)
+        ensures spec_scheme_from(#[trigger] a.bytes()) == Some(a)
+    {}
+    #[verifier::external_body]
+    pub broadcast proof fn axiom_path_inv(a: PathAndQuery)
+        ensures spec_path_from(#[trigger] a.bytes()) == Some(a)
+    {}
+    #[verifier::external_body]
+    pub broadcast proof fn axiom_path_slash()
+        ensures (#[trigger] spec_path_from("/".spec_bytes())) is Some
+    {}
+    pub broadcast group group_http_ax {
+        axiom_spec_cow, axiom_method_nonempty, axiom_header_name_inv, axiom_method_inv, axiom_status_inv, axiom_scheme_from, axiom_authority_from, axiom_authority_inv, axiom_scheme_inv, axiom_path_inv, axiom_path_slash
+    }
 }
